@@ -73,6 +73,29 @@ def directed(rng, tier, idents):
              "exports": [{"name": "deep", "kind": "func", "idx": 0}, {"name": "ping", "kind": "func", "idx": 1}, {"name": "pong", "kind": "func", "idx": 2}]}
         items.append({"id": "reent%d" % N, "module": m,
                       "script": [inst()] + [{"op": "call", "inst": 1, "export": e, "args": [arg("i32", n)]} for e in ("deep", "ping") for n in (0, 1, 2, 5)]})
+    # (b4) every activation starts with fresh locals: functions that call THEMSELVES as the last thing they do (directly before the ends, via
+    #      return, inside nested blocks; in a mutual pair) and read a local before writing it - a call is a call, however it could be compiled
+    g = lambda k: ["local.get", k]
+    c1 = ["i32.const", b32(1)]
+    def rows(self_idx, tail):
+        # f(n, acc): t (local 2, never initialised by the code) += n; d (local 3, i64) += n; n == 0 ? acc + d : f(n - 1, acc + t)
+        return [g(2), g(0), ["i32.add"], ["local.set", 2], g(3), g(0), ["i64.extend_i32_u"], ["i64.add"], ["local.set", 3],
+                g(0), ["i32.eqz"], ["if", "i32"], g(1), g(3), ["i32.wrap_i64"], ["i32.add"], ["else"]] + tail(self_idx) + [["end"], ["end"]]
+    plain = lambda i_: [g(0), c1, ["i32.sub"], g(1), g(2), ["i32.add"], ["call", i_]]
+    viaret = lambda i_: plain(i_) + [["return"]]
+    nested = lambda i_: [["block", "i32"], ["block", "i32"]] + plain(i_) + [["end"], ["end"]]
+    m = {"types": [{"p": ["i32", "i32"], "r": ["i32"]}],
+         "funcs": [{"type": 0, "locals": [["i32", 1], ["i64", 1]], "body": rows(0, plain)},
+                   {"type": 0, "locals": [["i32", 1], ["i64", 1]], "body": rows(1, viaret)},
+                   {"type": 0, "locals": [["i32", 1], ["i64", 1]], "body": rows(2, nested)},
+                   {"type": 0, "locals": [["i32", 1], ["i64", 1]], "body": rows(4, plain)},          # 3 -> 4 -> 3 ...
+                   {"type": 0, "locals": [["i32", 1], ["i64", 1]], "body": [["nop"]] + rows(3, plain)},
+                   # not in tail position: the same, with the result used afterwards
+                   {"type": 0, "locals": [["i32", 1], ["i64", 1]], "body": rows(5, lambda i_: plain(i_) + [c1, ["i32.add"]])}],
+         "exports": [{"name": n_, "kind": "func", "idx": i_} for i_, n_ in enumerate(("rows", "rowsret", "rowsnest", "ping", "pong", "rowsplus"))]}
+    items.append({"id": "freshlocals", "module": m,
+                  "script": [inst()] + [{"op": "call", "inst": 1, "export": e_, "args": [arg("i32", n_), arg("i32", a_)]}
+                                        for e_ in ("rows", "rowsret", "rowsnest", "ping", "rowsplus") for n_, a_ in ((0, 7), (1, 0), (4, 0), (9, 100))]})
     # (b3) a callee is called every time the caller says so: getters of memory / globals called twice with a write in between
     #      and in a loop; callees that only trap; callees that do nothing
     m = {"types": [{"p": [], "r": ["i32"]}, {"p": ["i32"], "r": ["i32"]}, {"p": [], "r": []}, {"p": ["i32"], "r": []}],
